@@ -67,6 +67,12 @@ type Item struct {
 	// Pkgs maps a package identifier used in File to its directory (kind "switchtable", ext_switch.go).
 	Pkgs map[string]string `json:"pkgs"`
 	ErrBase  int      `json:"errbase"`
+	// ErrIsFn / ErrIs (b-rpc, C26): errors.Is(e, S) is translated to (ErrIsFn id) where id is
+	// ErrIs[source text of S]; a sentinel that is not in the table gets a stable id >= 1000
+	// derived from its text, so a classification function that grows a new errors.Is target
+	// still translates (and the theorems about it are re-checked) instead of being refused.
+	ErrIsFn string           `json:"errisfn"`
+	ErrIs   map[string]int64 `json:"erris"`
 }
 
 type Output struct {
@@ -294,6 +300,10 @@ func (t *tr) expr(e ast.Expr) string {
 	switch x := e.(type) {
 	case *ast.ParenExpr:
 		return t.expr(x.X)
+	case *ast.SelectorExpr: // time.Second etc. and other package constants the constant evaluator knows
+		if v, ok := t.pc.eval(x, 0); ok && v.Kind() == constant.Int {
+			return zlit(v)
+		}
 	case *ast.BasicLit:
 		v := constant.MakeFromLiteral(x.Value, x.Kind, 0)
 		if v.Kind() == constant.Float { // integral float literal such as 1e9
@@ -395,6 +405,18 @@ func (t *tr) expr(e ast.Expr) string {
 		}
 		if k, ok := t.errIdx[x.Pos()]; ok {
 			return fmt.Sprintf("%d", t.it.ErrBase+k)
+		}
+		if t.it.ErrIsFn != "" && show(x.Fun) == "errors.Is" && len(x.Args) == 2 {
+			name := show(x.Args[1])
+			id, ok := t.it.ErrIs[name]
+			if !ok {
+				h := uint32(2166136261)
+				for i := 0; i < len(name); i++ {
+					h = (h ^ uint32(name[i])) * 16777619
+				}
+				id = 1000 + int64(h%1000000)
+			}
+			return fmt.Sprintf("(%s %d (* %s *))", t.it.ErrIsFn, id, name)
 		}
 		if c, ok := t.it.Calls[show(x.Fun)]; ok {
 			s := "(" + c
